@@ -250,3 +250,15 @@ Fixpoint col_data_types (sch : schema) (dst : list string) : option (list coltyp
       | _, _ => None                            (* "didn't find column" *)
       end
   end.
+
+(* ---- makeConfig: the column mapping given on the command line (-dest-cols, -src-cols) ----
+   source indexes are parsed with strconv.Atoi (here: integers); a negative index and more source
+   than destination columns are refused (each source column takes its type from the destination
+   column at the same position), then the destination columns are looked up in the catalog *)
+Definition make_config (sch : schema) (dst : list string) (src : list Z) : option cfg :=
+  if existsb (fun z => (z <? 0)%Z) src then None
+  else if (List.length dst <? List.length src)%nat then None
+  else match col_data_types sch dst with
+       | Some ts => Some (mkCfg ts dst (map Z.to_nat src))
+       | None => None
+       end.
